@@ -1,11 +1,903 @@
 package c17
 
-import (
-	"math/rand"
+// Part 2 of C17: dynamic resource allocation. With IgnoreDRARequests=false the real Provisioner.Schedule builds the
+// real dynamicresources.Allocator over (a) ResourceSlices published in the (fake) API server - cluster-wide, zoned and
+// node-local on an initialised node - and (b) ResourceSliceTemplates on the generated instance types, fed with the
+// in-cluster allocations tracked by the real deviceallocation controller. The oracle reads
+// Results.DRAClaimAllocationMetadata and the *generated* device definitions only:
+//
+//   - an exclusive device never serves two allocations that can co-occur (different NodeClaims: any instance types;
+//     same NodeClaim: same instance type), nor any allocation when it is already allocated in-cluster to a live pod;
+//   - per multi-allocatable device and capacity dimension, in-cluster consumption + the worst co-occurring sum of
+//     consumed capacity <= the device's capacity;
+//   - per counter set of a partitionable pool, the worst co-occurring sum of consumed counters <= the shared counters.
+//
+// Breadth is bounded (and said so in evidence): exclusive devices, consumable capacity without request policies,
+// partitionable devices; CEL selectors are driver / attribute equality only; Exactly requests with exact counts.
 
+import (
+	"context"
+	"fmt"
+	"math/rand"
+	"reflect"
+	"sort"
+	"strings"
+	"unique"
+
+	corev1 "k8s.io/api/core/v1"
+	resourcev1 "k8s.io/api/resource/v1"
+	"k8s.io/apimachinery/pkg/api/resource"
+	metav1 "k8s.io/apimachinery/pkg/apis/meta/v1"
+	"k8s.io/apimachinery/pkg/types"
+	"sigs.k8s.io/controller-runtime/pkg/reconcile"
+
+	v1 "sigs.k8s.io/karpenter/pkg/apis/v1"
+	"sigs.k8s.io/karpenter/pkg/cloudprovider"
+	provscheduling "sigs.k8s.io/karpenter/pkg/controllers/provisioning/scheduling"
+	"sigs.k8s.io/karpenter/pkg/operator/options"
+	"sigs.k8s.io/karpenter/pkg/test"
+
+	"verif/gen"
 	"verif/mon"
+	"verif/world"
 )
 
+const (
+	drvGPU  = "gpu.example.com"  // exclusive devices (templates + in-cluster)
+	drvVGPU = "vgpu.example.com" // multi-allocatable devices with a consumable "memory" capacity
+	drvMIG  = "mig.example.com"  // partitionable devices drawing from shared counters
+	dimMem  = "memory"
+	cntMem  = "memory"
+	cntCmp  = "compute"
+)
+
+// devSpec is the generator's own record of one device (the oracle never asks Karpenter what a device is).
+type devSpec struct {
+	Driver, Pool, Name string
+	Shared             bool
+	Capacity           map[string]resource.Quantity            // dimension -> total
+	Consumes           map[string]map[string]resource.Quantity // counter set -> counter -> amount
+	Attrs              map[string]string
+	IT                 string // template devices: owning instance type
+	Zone               string // zoned in-cluster slice
+	Node               string // node-local in-cluster slice
+}
+
+func (d *devSpec) key() string { return d.Driver + "|" + d.Pool + "|" + d.Name }
+
+type draWorld struct {
+	e         *world.Env
+	par       int64
+	desc      map[string]any
+	types     []*cloudprovider.InstanceType
+	inCluster map[string]*devSpec                                           // key -> device
+	templates map[string]map[string]*devSpec                                // instance type -> key -> device
+	counters  map[string]map[string]map[string]resource.Quantity            // in-cluster: driver|pool -> set -> counter -> value
+	tcounters map[string]map[string]map[string]map[string]resource.Quantity // instance type -> driver|pool -> set -> counter -> value
+	preExcl   map[string]string                                             // in-cluster exclusive device key -> pre-allocated claim (live consumer)
+	preShared map[string]map[string]resource.Quantity                       // in-cluster shared device key -> dimension -> consumed by live consumers
+	claims    map[string]*resourcev1.ResourceClaim
+	batch     []*corev1.Pod
+	kinds     map[string]bool
+	nodeName  string
+}
+
+func q(s string) resource.Quantity { return resource.MustParse(s) }
+
+func strAttr(s string) resourcev1.DeviceAttribute { return resourcev1.DeviceAttribute{StringValue: &s} }
+
+func attrsOf(m map[string]string) map[resourcev1.QualifiedName]resourcev1.DeviceAttribute {
+	if len(m) == 0 {
+		return nil
+	}
+	out := map[resourcev1.QualifiedName]resourcev1.DeviceAttribute{}
+	for k, v := range m {
+		out[resourcev1.QualifiedName(k)] = strAttr(v)
+	}
+	return out
+}
+
+func capOf(m map[string]resource.Quantity) map[resourcev1.QualifiedName]resourcev1.DeviceCapacity {
+	if len(m) == 0 {
+		return nil
+	}
+	out := map[resourcev1.QualifiedName]resourcev1.DeviceCapacity{}
+	for k, v := range m {
+		out[resourcev1.QualifiedName(k)] = resourcev1.DeviceCapacity{Value: v}
+	}
+	return out
+}
+
+func consumesOf(m map[string]map[string]resource.Quantity) []resourcev1.DeviceCounterConsumption {
+	var out []resourcev1.DeviceCounterConsumption
+	for _, set := range sortedKeys(m) {
+		c := map[string]resourcev1.Counter{}
+		for n, v := range m[set] {
+			c[n] = resourcev1.Counter{Value: v}
+		}
+		out = append(out, resourcev1.DeviceCounterConsumption{CounterSet: set, Counters: c})
+	}
+	return out
+}
+
+func counterSetsOf(m map[string]map[string]resource.Quantity) []resourcev1.CounterSet {
+	var out []resourcev1.CounterSet
+	for _, set := range sortedKeys(m) {
+		c := map[string]resourcev1.Counter{}
+		for n, v := range m[set] {
+			c[n] = resourcev1.Counter{Value: v}
+		}
+		out = append(out, resourcev1.CounterSet{Name: set, Counters: c})
+	}
+	return out
+}
+
+func sortedKeys[V any](m map[string]V) []string {
+	out := make([]string, 0, len(m))
+	for k := range m {
+		out = append(out, k)
+	}
+	sort.Strings(out)
+	return out
+}
+
+func (d *devSpec) cloud() cloudprovider.Device {
+	return cloudprovider.Device{Name: unique.Make(d.Name), Attributes: attrsOf(d.Attrs), Capacity: capOf(d.Capacity), AllowMultipleAllocations: d.Shared, ConsumesCounters: consumesOf(d.Consumes)}
+}
+
+func (d *devSpec) api() resourcev1.Device {
+	out := resourcev1.Device{Name: d.Name, Attributes: attrsOf(d.Attrs), Capacity: capOf(d.Capacity), ConsumesCounters: consumesOf(d.Consumes)}
+	if d.Shared {
+		t := true
+		out.AllowMultipleAllocations = &t
+	}
+	return out
+}
+
+// migProfiles: partition profiles of a 40Gi / 8-compute card.
+var migProfiles = []struct {
+	name string
+	mem  string
+	cmp  string
+}{{"1g", "10Gi", "2"}, {"2g", "20Gi", "4"}, {"4g", "40Gi", "8"}, {"1g", "10Gi", "2"}, {"2g", "20Gi", "4"}}
+
+func migDevices(rng *rand.Rand, driver, pool, prefix, set string) []*devSpec {
+	n := 2 + rng.Intn(4)
+	var out []*devSpec
+	for i := 0; i < n; i++ {
+		p := migProfiles[(i+rng.Intn(2))%len(migProfiles)]
+		out = append(out, &devSpec{Driver: driver, Pool: pool, Name: fmt.Sprintf("%s-%s-%d", prefix, p.name, i), Attrs: map[string]string{"profile": p.name},
+			Consumes: map[string]map[string]resource.Quantity{set: {cntMem: q(p.mem), cntCmp: q(p.cmp)}}})
+	}
+	return out
+}
+
+func slice(name, driver, pool string, count int64, devs []*devSpec) *resourcev1.ResourceSlice {
+	s := &resourcev1.ResourceSlice{ObjectMeta: metav1.ObjectMeta{Name: name},
+		Spec: resourcev1.ResourceSliceSpec{Driver: driver, Pool: resourcev1.ResourcePool{Name: pool, Generation: 1, ResourceSliceCount: count}}}
+	for _, d := range devs {
+		s.Spec.Devices = append(s.Spec.Devices, d.api())
+	}
+	return s
+}
+
+func buildDRA(seed int64, par int64) *draWorld {
+	rng := rand.New(rand.NewSource(seed))
+	w := &draWorld{par: par, inCluster: map[string]*devSpec{}, templates: map[string]map[string]*devSpec{}, counters: map[string]map[string]map[string]resource.Quantity{},
+		tcounters: map[string]map[string]map[string]map[string]resource.Quantity{}, preExcl: map[string]string{}, preShared: map[string]map[string]resource.Quantity{},
+		claims: map[string]*resourcev1.ResourceClaim{}, kinds: map[string]bool{}}
+	pp := []options.PreferencePolicy{options.PreferencePolicyRespect, options.PreferencePolicyIgnore}[rng.Intn(2)]
+	cpu := par * 1000
+	ignore := false
+	e := world.NewEnv(rng, test.OptionsFields{PreferencePolicy: &pp, CPURequests: &cpu, IgnoreDRARequests: &ignore})
+	w.e = e
+	e.Apply(gen.NodeClass())
+	// ---- instance types with ResourceSliceTemplates
+	nt := 2 + rng.Intn(4)
+	var specs []gen.TypeSpec
+	var typeDesc []map[string]any
+	for i := 0; i < nt; i++ {
+		c := []int{4, 8, 16}[rng.Intn(3)]
+		sp := gen.TypeSpec{Name: fmt.Sprintf("d%d-c%d", i, c), CPU: c, MemGi: c * 4, Pods: []int{8, 16, 110}[rng.Intn(3)], Arch: v1.ArchitectureAmd64, Family: gen.Families[rng.Intn(3)], Gen: 1 + rng.Intn(5)}
+		for _, zi := range rng.Perm(3)[:1+rng.Intn(3)] {
+			sp.Offerings = append(sp.Offerings, gen.OfferingSpec{Zone: gen.Zones[zi], CapType: v1.CapacityTypeOnDemand, Price: float64(c) * 0.05, Available: true})
+			if rng.Intn(2) == 0 {
+				sp.Offerings = append(sp.Offerings, gen.OfferingSpec{Zone: gen.Zones[zi], CapType: v1.CapacityTypeSpot, Price: float64(c) * 0.02, Available: true})
+			}
+		}
+		it := gen.BuildType(sp)
+		w.templates[sp.Name] = map[string]*devSpec{}
+		w.tcounters[sp.Name] = map[string]map[string]map[string]resource.Quantity{}
+		var tdesc []string
+		addT := func(driver, pool string, devs []*devSpec) {
+			t := &cloudprovider.ResourceSliceTemplate{Driver: unique.Make(driver), Pool: cloudprovider.ResourcePool{Name: unique.Make(pool)}}
+			for _, d := range devs {
+				d.IT = sp.Name
+				w.templates[sp.Name][d.key()] = d
+				t.Devices = append(t.Devices, d.cloud())
+			}
+			it.DynamicResources.ResourceSliceTemplates = append(it.DynamicResources.ResourceSliceTemplates, t)
+		}
+		if rng.Intn(100) < 65 { // exclusive GPUs
+			n := []int{1, 2, 2, 4}[rng.Intn(4)]
+			model := []string{"a100", "h100"}[rng.Intn(2)]
+			var devs []*devSpec
+			for k := 0; k < n; k++ {
+				m := model
+				if rng.Intn(5) == 0 {
+					m = []string{"a100", "h100"}[rng.Intn(2)]
+				}
+				devs = append(devs, &devSpec{Driver: drvGPU, Pool: sp.Name + "-gpu", Name: fmt.Sprintf("gpu-%d", k), Attrs: map[string]string{"model": m}})
+			}
+			addT(drvGPU, sp.Name+"-gpu", devs)
+			tdesc = append(tdesc, fmt.Sprintf("%dx exclusive gpu", n))
+			w.kinds["template-exclusive"] = true
+		}
+		if rng.Intn(100) < 50 { // multi-allocatable vGPU(s)
+			n := 1 + rng.Intn(2)
+			var devs []*devSpec
+			for k := 0; k < n; k++ {
+				devs = append(devs, &devSpec{Driver: drvVGPU, Pool: sp.Name + "-vgpu", Name: fmt.Sprintf("vgpu-%d", k), Shared: true,
+					Capacity: map[string]resource.Quantity{dimMem: q([]string{"16Gi", "24Gi", "40Gi"}[rng.Intn(3)])}})
+			}
+			addT(drvVGPU, sp.Name+"-vgpu", devs)
+			tdesc = append(tdesc, fmt.Sprintf("%dx shared vgpu", n))
+			w.kinds["template-shared"] = true
+		}
+		if rng.Intn(100) < 45 { // partitionable card
+			pool := sp.Name + "-mig"
+			set := "card0"
+			budget := map[string]map[string]resource.Quantity{set: {cntMem: q("40Gi"), cntCmp: q("8")}}
+			w.tcounters[sp.Name][drvMIG+"|"+pool] = budget
+			it.DynamicResources.ResourceSliceTemplates = append(it.DynamicResources.ResourceSliceTemplates,
+				&cloudprovider.ResourceSliceTemplate{Driver: unique.Make(drvMIG), Pool: cloudprovider.ResourcePool{Name: unique.Make(pool)}, SharedCounters: counterSetsOf(budget)})
+			devs := migDevices(rng, drvMIG, pool, "mig", set)
+			addT(drvMIG, pool, devs)
+			tdesc = append(tdesc, fmt.Sprintf("partitionable card with %d profiles", len(devs)))
+			w.kinds["template-partitionable"] = true
+		}
+		specs = append(specs, sp)
+		w.types = append(w.types, it)
+		typeDesc = append(typeDesc, map[string]any{"name": sp.Name, "cpu": sp.CPU, "pods": sp.Pods, "zones": zonesOf(sp), "templates": tdesc})
+	}
+	e.Provider.Default = w.types
+	// ---- NodePools
+	np := 1 + rng.Intn(2)
+	var poolDesc []map[string]any
+	for i := 0; i < np; i++ {
+		p := gen.NodePool(rng, fmt.Sprintf("pool-%d", i), gen.PoolCfg{})
+		if rng.Intn(3) == 0 {
+			p.Spec.Template.Spec.Requirements = append(p.Spec.Template.Spec.Requirements, gen.R(corev1.LabelTopologyZone, corev1.NodeSelectorOpIn, gen.Zones[rng.Intn(3)], gen.Zones[rng.Intn(3)]))
+		}
+		if rng.Intn(2) == 0 {
+			wt := int32(1 + rng.Intn(3)*10)
+			p.Spec.Weight = &wt
+		}
+		e.Apply(p)
+		poolDesc = append(poolDesc, map[string]any{"name": p.Name, "weight": p.Spec.Weight, "requirements": p.Spec.Template.Spec.Requirements})
+	}
+	// ---- an initialised (unmanaged) node with a node-local slice and live pods
+	var sliceDesc []map[string]any
+	addIn := func(s *resourcev1.ResourceSlice, devs []*devSpec, what string) {
+		for _, d := range devs {
+			w.inCluster[d.key()] = d
+		}
+		e.Apply(s)
+		var names []string
+		for _, d := range devs {
+			names = append(names, d.Name)
+		}
+		sliceDesc = append(sliceDesc, map[string]any{"name": s.Name, "driver": s.Spec.Driver, "pool": s.Spec.Pool.Name, "kind": what, "devices": names})
+	}
+	w.nodeName = "dra-node"
+	node := &corev1.Node{
+		ObjectMeta: metav1.ObjectMeta{Name: w.nodeName, UID: types.UID("node-" + w.nodeName), Labels: map[string]string{corev1.LabelHostname: w.nodeName, corev1.LabelTopologyZone: gen.Zones[rng.Intn(3)],
+			corev1.LabelArchStable: v1.ArchitectureAmd64, corev1.LabelOSStable: "linux"}},
+		Spec: corev1.NodeSpec{ProviderID: "unmanaged://" + w.nodeName},
+		Status: corev1.NodeStatus{Phase: corev1.NodeRunning,
+			Capacity:    corev1.ResourceList{corev1.ResourceCPU: gen.Q("4"), corev1.ResourceMemory: gen.Q("16Gi"), corev1.ResourcePods: gen.Q("10")},
+			Allocatable: corev1.ResourceList{corev1.ResourceCPU: gen.Q("4"), corev1.ResourceMemory: gen.Q("15Gi"), corev1.ResourcePods: gen.Q("10")},
+			Conditions:  []corev1.NodeCondition{{Type: corev1.NodeReady, Status: corev1.ConditionTrue}}},
+	}
+	e.Apply(node)
+	live := gen.Pod("live-0", 500, 256, gen.Bound(w.nodeName, e.Clock.Now()))
+	e.Apply(live)
+	liveRef := resourcev1.ResourceClaimConsumerReference{Resource: "pods", Name: live.Name, UID: live.UID}
+	if rng.Intn(100) < 40 {
+		n := 1 + rng.Intn(2)
+		var devs []*devSpec
+		pool := drvGPU + "/" + w.nodeName
+		for k := 0; k < n; k++ {
+			devs = append(devs, &devSpec{Driver: drvGPU, Pool: pool, Name: fmt.Sprintf("local-gpu-%d", k), Attrs: map[string]string{"model": "a100"}, Node: w.nodeName})
+		}
+		s := slice(w.nodeName+"-gpu", drvGPU, pool, 1, devs)
+		s.OwnerReferences = []metav1.OwnerReference{{APIVersion: "v1", Kind: "Node", Name: node.Name, UID: node.UID}}
+		s.Spec.NodeName = &w.nodeName
+		addIn(s, devs, "node-local exclusive")
+		w.kinds["node-local"] = true
+	}
+	// ---- published cluster-wide / zoned slices
+	all := true
+	var cwGPU []*devSpec
+	if rng.Intn(100) < 60 {
+		n := 1 + rng.Intn(3)
+		for k := 0; k < n; k++ {
+			cwGPU = append(cwGPU, &devSpec{Driver: drvGPU, Pool: "cw-gpu", Name: fmt.Sprintf("cw-gpu-%d", k), Attrs: map[string]string{"model": []string{"a100", "h100"}[rng.Intn(2)]}})
+		}
+		s := slice("cw-gpu", drvGPU, "cw-gpu", 1, cwGPU)
+		s.Spec.AllNodes = &all
+		addIn(s, cwGPU, "cluster-wide exclusive")
+		w.kinds["cluster-exclusive"] = true
+	}
+	if rng.Intn(100) < 35 {
+		z := gen.Zones[rng.Intn(3)]
+		var devs []*devSpec
+		for k := 0; k < 1+rng.Intn(2); k++ {
+			devs = append(devs, &devSpec{Driver: drvGPU, Pool: "zoned-gpu", Name: fmt.Sprintf("zoned-gpu-%d", k), Attrs: map[string]string{"model": "h100"}, Zone: z})
+		}
+		s := slice("zoned-gpu", drvGPU, "zoned-gpu", 1, devs)
+		s.Spec.NodeSelector = &corev1.NodeSelector{NodeSelectorTerms: []corev1.NodeSelectorTerm{{MatchExpressions: []corev1.NodeSelectorRequirement{{Key: corev1.LabelTopologyZone, Operator: corev1.NodeSelectorOpIn, Values: []string{z}}}}}}
+		addIn(s, devs, "zoned exclusive ("+z+")")
+		w.kinds["zoned-exclusive"] = true
+	}
+	var cwV *devSpec
+	if rng.Intn(100) < 50 {
+		cwV = &devSpec{Driver: drvVGPU, Pool: "cw-vgpu", Name: "cw-vgpu-0", Shared: true, Capacity: map[string]resource.Quantity{dimMem: q([]string{"16Gi", "24Gi", "40Gi"}[rng.Intn(3)])}}
+		s := slice("cw-vgpu", drvVGPU, "cw-vgpu", 1, []*devSpec{cwV})
+		s.Spec.AllNodes = &all
+		addIn(s, []*devSpec{cwV}, "cluster-wide shared")
+		w.kinds["cluster-shared"] = true
+	}
+	var cwMig []*devSpec
+	if rng.Intn(100) < 40 {
+		budget := map[string]map[string]resource.Quantity{"cwcard": {cntMem: q("40Gi"), cntCmp: q("8")}}
+		w.counters[drvMIG+"|cw-mig"] = budget
+		cs := slice("cw-mig-counters", drvMIG, "cw-mig", 2, nil)
+		cs.Spec.SharedCounters = counterSetsOf(budget)
+		cs.Spec.AllNodes = &all
+		e.Apply(cs)
+		cwMig = migDevices(rng, drvMIG, "cw-mig", "cwmig", "cwcard")
+		s := slice("cw-mig-devices", drvMIG, "cw-mig", 2, cwMig)
+		s.Spec.AllNodes = &all
+		addIn(s, cwMig, "cluster-wide partitionable")
+		w.kinds["cluster-partitionable"] = true
+	}
+	// ---- device classes
+	for name, drv := range map[string]string{"gpu": drvGPU, "vgpu": drvVGPU, "mig": drvMIG} {
+		e.Apply(&resourcev1.DeviceClass{ObjectMeta: metav1.ObjectMeta{Name: name},
+			Spec: resourcev1.DeviceClassSpec{Selectors: []resourcev1.DeviceSelector{{CEL: &resourcev1.CELDeviceSelector{Expression: fmt.Sprintf("device.driver == %q", drv)}}}}})
+	}
+	// ---- claims already allocated in-cluster to the live pod
+	var preDesc []string
+	preClaim := func(name string, d *devSpec, consumed map[string]resource.Quantity) {
+		res := resourcev1.DeviceRequestAllocationResult{Request: "req", Driver: d.Driver, Pool: d.Pool, Device: d.Name}
+		req := resourcev1.DeviceRequest{Name: "req", Exactly: &resourcev1.ExactDeviceRequest{DeviceClassName: map[string]string{drvGPU: "gpu", drvVGPU: "vgpu", drvMIG: "mig"}[d.Driver], AllocationMode: resourcev1.DeviceAllocationModeExactCount, Count: 1}}
+		if consumed != nil {
+			res.ConsumedCapacity = map[resourcev1.QualifiedName]resource.Quantity{}
+			req.Exactly.Capacity = &resourcev1.CapacityRequirements{Requests: map[resourcev1.QualifiedName]resource.Quantity{}}
+			for k, v := range consumed {
+				res.ConsumedCapacity[resourcev1.QualifiedName(k)] = v
+				req.Exactly.Capacity.Requests[resourcev1.QualifiedName(k)] = v
+			}
+			w.preShared[d.key()] = consumed
+		} else {
+			w.preExcl[d.key()] = name
+		}
+		c := &resourcev1.ResourceClaim{ObjectMeta: metav1.ObjectMeta{Name: name, Namespace: "default"},
+			Spec:   resourcev1.ResourceClaimSpec{Devices: resourcev1.DeviceClaim{Requests: []resourcev1.DeviceRequest{req}}},
+			Status: resourcev1.ResourceClaimStatus{Allocation: &resourcev1.AllocationResult{Devices: resourcev1.DeviceAllocationResult{Results: []resourcev1.DeviceRequestAllocationResult{res}}}, ReservedFor: []resourcev1.ResourceClaimConsumerReference{liveRef}}}
+		e.Apply(c)
+		preDesc = append(preDesc, fmt.Sprintf("%s -> %s %v", name, d.key(), consumed))
+	}
+	if len(cwGPU) > 0 && rng.Intn(100) < 50 {
+		preClaim("pre-gpu", cwGPU[rng.Intn(len(cwGPU))], nil)
+		w.kinds["prealloc-exclusive"] = true
+	}
+	if cwV != nil && rng.Intn(100) < 50 {
+		preClaim("pre-vgpu", cwV, map[string]resource.Quantity{dimMem: q([]string{"4Gi", "8Gi", "12Gi"}[rng.Intn(3)])})
+		w.kinds["prealloc-shared"] = true
+	}
+	if len(cwMig) > 0 && rng.Intn(100) < 50 {
+		preClaim("pre-mig", cwMig[rng.Intn(len(cwMig))], nil)
+		w.kinds["prealloc-partition"] = true
+	}
+	// ---- unallocated claims and the pod batch
+	newClaim := func(name string) *resourcev1.ResourceClaim {
+		c := &resourcev1.ResourceClaim{ObjectMeta: metav1.ObjectMeta{Name: name, Namespace: "default"}}
+		nreq := 1
+		if rng.Intn(6) == 0 {
+			nreq = 2
+		}
+		for k := 0; k < nreq; k++ {
+			ex := &resourcev1.ExactDeviceRequest{AllocationMode: resourcev1.DeviceAllocationModeExactCount, Count: 1}
+			switch x := rng.Intn(100); {
+			case x < 40:
+				ex.DeviceClassName = "gpu"
+				if rng.Intn(4) == 0 {
+					ex.Count = 2
+				}
+				if rng.Intn(3) == 0 {
+					ex.Selectors = []resourcev1.DeviceSelector{{CEL: &resourcev1.CELDeviceSelector{Expression: fmt.Sprintf("device.attributes[%q].model == %q", drvGPU, []string{"a100", "h100"}[rng.Intn(2)])}}}
+				}
+			case x < 72:
+				ex.DeviceClassName = "vgpu"
+				if rng.Intn(6) != 0 {
+					ex.Capacity = &resourcev1.CapacityRequirements{Requests: map[resourcev1.QualifiedName]resource.Quantity{dimMem: q([]string{"4Gi", "8Gi", "10Gi", "16Gi", "24Gi"}[rng.Intn(5)])}}
+				}
+			default:
+				ex.DeviceClassName = "mig"
+				if rng.Intn(2) == 0 {
+					ex.Selectors = []resourcev1.DeviceSelector{{CEL: &resourcev1.CELDeviceSelector{Expression: fmt.Sprintf("device.attributes[%q].profile == %q", drvMIG, []string{"1g", "2g", "4g"}[rng.Intn(3)])}}}
+				}
+			}
+			c.Spec.Devices.Requests = append(c.Spec.Devices.Requests, resourcev1.DeviceRequest{Name: fmt.Sprintf("r%d", k), Exactly: ex})
+		}
+		e.Apply(c)
+		w.claims[name] = c
+		return c
+	}
+	n := 2 + rng.Intn(9)
+	var claimNames []string
+	for i := 0; i < n; i++ {
+		cpuM := []int64{100, 250, 500, 1000, 1500, 3000}[rng.Intn(6)]
+		p := gen.Pod(fmt.Sprintf("p%d", i+1), cpuM, []int64{128, 512, 1024}[rng.Intn(3)])
+		nc := 1
+		switch x := rng.Intn(100); {
+		case x < 12:
+			nc = 0
+		case x < 25:
+			nc = 2
+		}
+		used := map[string]bool{}
+		for k := 0; k < nc; k++ {
+			var name string
+			if len(claimNames) > 0 && rng.Intn(5) == 0 {
+				name = claimNames[rng.Intn(len(claimNames))] // share an existing claim with another pod
+				w.kinds["claim-shared-by-pods"] = true
+			} else {
+				name = fmt.Sprintf("claim-%d", len(claimNames))
+				newClaim(name)
+				claimNames = append(claimNames, name)
+			}
+			if used[name] {
+				continue
+			}
+			used[name] = true
+			ref := fmt.Sprintf("rc%d", k)
+			cn := name
+			p.Spec.ResourceClaims = append(p.Spec.ResourceClaims, corev1.PodResourceClaim{Name: ref, ResourceClaimName: &cn})
+			p.Spec.Containers[0].Resources.Claims = append(p.Spec.Containers[0].Resources.Claims, corev1.ResourceClaim{Name: ref})
+		}
+		if rng.Intn(6) == 0 {
+			gen.WithNodeSelector(corev1.LabelTopologyZone, gen.Zones[rng.Intn(3)])(p)
+		}
+		e.Apply(p)
+		w.batch = append(w.batch, p)
+	}
+	var claimDesc []map[string]any
+	for _, name := range claimNames {
+		claimDesc = append(claimDesc, map[string]any{"name": name, "requests": w.claims[name].Spec.Devices.Requests})
+	}
+	w.desc = map[string]any{"worldSeed": seed, "parallelism": par, "preferencePolicy": string(pp), "instanceTypes": typeDesc, "pools": poolDesc, "publishedSlices": sliceDesc,
+		"inClusterCounters": w.counters, "preAllocated": preDesc, "claims": claimDesc, "batch": podSummaries(w.batch), "node": map[string]any{"name": w.nodeName, "zone": node.Labels[corev1.LabelTopologyZone]}}
+	return w
+}
+
+func zonesOf(sp gen.TypeSpec) []string {
+	m := map[string]bool{}
+	for _, o := range sp.Offerings {
+		m[o.Zone] = true
+	}
+	return sortedKeys(m)
+}
+
+// hostnameOf reads the scheduler-internal placeholder hostname of a new NodeClaim (read-only reflection): it is the
+// NodeClaimID under which the allocator files the claim's allocations.
+func hostnameOf(nc *provscheduling.NodeClaim) string {
+	f := reflect.ValueOf(nc).Elem().FieldByName("hostname")
+	if !f.IsValid() || f.Kind() != reflect.String {
+		return ""
+	}
+	return f.String()
+}
+
+// alloc is one device allocation reported for (claim, NodeClaim, instance type).
+type alloc struct {
+	claim    string
+	nc       string
+	it       string
+	dev      *devSpec
+	template bool
+	request  string
+	consumed map[string]resource.Quantity // the oracle's own consumption for shared devices
+	reported map[string]resource.Quantity
+}
+
+func (a alloc) String() string {
+	return fmt.Sprintf("claim=%s request=%s nodeclaim=%s instanceType=%s device=%s template=%v consumed=%v", a.claim, a.request, a.nc, a.it, a.dev.key(), a.template, fmtQ(a.consumed))
+}
+
+func fmtQ(m map[string]resource.Quantity) string {
+	var parts []string
+	for _, k := range sortedKeys(m) {
+		v := m[k]
+		parts = append(parts, k+"="+v.String())
+	}
+	return "{" + strings.Join(parts, ",") + "}"
+}
+
 func runDRA(r *mon.Report, tier string, idx int, rng *rand.Rand) {
-	r.Inc("dra_cases_stub")
+	r.Assume("DRA breadth is bounded: exclusive devices, multi-allocatable devices with one consumable capacity dimension and no request policy, partitionable devices with one counter set per pool; Exactly requests with exact counts 1-2; CEL selectors limited to driver and attribute equality; no constraints (MatchAttribute/DistinctAttribute), no FirstAvailable/All modes, no admin access, no deleting pods")
+	seed := rng.Int63()
+	par := []int64{1, 4, 8}[rng.Intn(3)]
+	w := buildDRA(seed, par)
+	e := w.e
+	r.Inc("dra_cases")
+	cs := map[string]any{"case": idx, "part": "dra", "world": w.desc}
+	if err := e.SyncState(); err != nil {
+		r.Inconcl("case %d: state sync error: %v", idx, err)
+		r.Eval()
+		return
+	}
+	// kube-controller-manager / manager runnable emulation: hydrate the real deviceallocation controller and reconcile every claim
+	e.DeviceAlloc.Hydrate(e.Ctx)
+	claims := &resourcev1.ResourceClaimList{}
+	_ = e.API.Raw.List(context.Background(), claims)
+	for i := range claims.Items {
+		if _, err := e.DeviceAlloc.Reconcile(e.Ctx, reconcile.Request{NamespacedName: types.NamespacedName{Namespace: claims.Items[i].Namespace, Name: claims.Items[i].Name}}); err != nil {
+			r.Inconcl("case %d: deviceallocation reconcile: %v", idx, err)
+		}
+	}
+	var res provscheduling.Results
+	var err error
+	panicked, pv, stack := mon.Guard(func() { res, err = e.Prov.Schedule(e.Ctx) })
+	r.Eval()
+	if panicked {
+		key := "panic-in-schedule-dra"
+		if msg := fmt.Sprint(pv); strings.Contains(msg, "already allocated") {
+			key = "panic-dra-double-allocation"
+		}
+		r.Violate(key, fmt.Sprintf("Provisioner.Schedule panicked: %v", pv), cs, stack)
+		return
+	}
+	if err != nil {
+		r.Inc("dra_schedule_errors")
+		r.Inconcl("case %d: Schedule error: %v", idx, err)
+		return
+	}
+	w.judge(r, res, cs, idx)
+}
+
+func (w *draWorld) judge(r *mon.Report, res provscheduling.Results, cs map[string]any, idx int) {
+	// final instance-type options per NodeClaimID; DRA pods per target
+	options := map[string]map[string]bool{}
+	draPodsOn := map[string]int{}
+	placed := map[string]string{} // pod -> target id
+	for _, nc := range res.NewNodeClaims {
+		id := hostnameOf(nc)
+		if id == "" {
+			r.Inconcl("case %d: cannot read the NodeClaim placeholder hostname", idx)
+			return
+		}
+		options[id] = map[string]bool{}
+		for _, it := range nc.InstanceTypeOptions {
+			options[id][it.Name] = true
+		}
+		for _, p := range nc.Pods {
+			placed[p.Name] = id
+			if len(p.Spec.ResourceClaims) > 0 {
+				draPodsOn[id]++
+			}
+		}
+	}
+	existing := map[string]bool{}
+	for _, en := range res.ExistingNodes {
+		existing[en.ProviderID()] = true
+		for _, p := range en.Pods {
+			placed[p.Name] = en.ProviderID()
+			if len(p.Spec.ResourceClaims) > 0 {
+				draPodsOn[en.ProviderID()]++
+				r.Inc("dra_pods_on_existing_node")
+			}
+		}
+	}
+	for _, n := range draPodsOn {
+		if n >= 2 {
+			r.Inc("dra_targets_with_several_dra_pods")
+		}
+	}
+	r.Count("dra_pods_unscheduled", len(res.PodErrors))
+	// ---- collect the reported allocations
+	var allocs []alloc
+	stale := 0
+	for key, meta := range res.DRAClaimAllocationMetadata {
+		if meta == nil {
+			continue
+		}
+		r.Inc("dra_claims_allocated")
+		claim := w.claims[key.Name]
+		nc := meta.NodeClaimID.Value()
+		if !existing[nc] && options[nc] == nil {
+			r.Inc("dra_allocations_for_unknown_nodeclaim")
+		}
+		for itID, results := range meta.Devices {
+			it := itID.Value()
+			if opts, ok := options[nc]; ok && !opts[it] {
+				// the instance type is no longer an option of that NodeClaim: this combination cannot occur
+				stale++
+				continue
+			}
+			for _, dr := range results {
+				k := dr.DeviceID.Driver.Value() + "|" + dr.DeviceID.Pool.Value() + "|" + dr.DeviceID.Device.Value()
+				var d *devSpec
+				if dr.DeviceID.Template {
+					d = w.templates[it][k]
+				} else {
+					d = w.inCluster[k]
+				}
+				if d == nil {
+					r.Violate("dra-allocated-nonexistent-device", fmt.Sprintf("claim %s was allocated device %s (template=%v, instance type %s) which no generated slice or template of that instance type contains", key.Name, k, dr.DeviceID.Template, it), cs, nil)
+					continue
+				}
+				a := alloc{claim: key.Name, nc: nc, it: it, dev: d, template: dr.DeviceID.Template, request: dr.RequestName.String(), reported: map[string]resource.Quantity{}}
+				for dn, qv := range dr.ConsumedCapacity {
+					a.reported[string(dn)] = qv
+				}
+				if d.Shared {
+					// own consumption: the request's capacity for the dimension, the whole device when it asks for none
+					a.consumed = map[string]resource.Quantity{}
+					var asked map[resourcev1.QualifiedName]resource.Quantity
+					if claim != nil {
+						for _, rq := range claim.Spec.Devices.Requests {
+							if rq.Name == dr.RequestName.Parent && rq.Exactly != nil && rq.Exactly.Capacity != nil {
+								asked = rq.Exactly.Capacity.Requests
+							}
+						}
+					}
+					for dim, total := range d.Capacity {
+						if v, ok := asked[resourcev1.QualifiedName(dim)]; ok {
+							a.consumed[dim] = v
+						} else {
+							a.consumed[dim] = total
+						}
+						if rep, ok := a.reported[dim]; !ok || rep.Cmp(a.consumed[dim]) != 0 {
+							r.Inc("dra_reported_consumption_differs_from_oracle")
+						}
+					}
+				}
+				allocs = append(allocs, a)
+				r.Inc("dra_device_allocations_checked")
+				if a.template {
+					r.Inc("dra_template_device_allocations")
+				} else {
+					r.Inc("dra_in_cluster_device_allocations")
+				}
+			}
+		}
+	}
+	r.Count("dra_stale_instance_type_entries_skipped", stale)
+	// every placed pod's unallocated claims must have been allocated (otherwise nothing can be judged about them)
+	for _, p := range w.batch {
+		if _, ok := placed[p.Name]; !ok {
+			continue
+		}
+		for _, pc := range p.Spec.ResourceClaims {
+			if _, ok := res.DRAClaimAllocationMetadata[types.NamespacedName{Namespace: "default", Name: *pc.ResourceClaimName}]; !ok {
+				r.Violate("dra-placed-pod-without-allocation", fmt.Sprintf("pod %s was placed but its ResourceClaim %s has no allocation metadata", p.Name, *pc.ResourceClaimName), cs, nil)
+			}
+		}
+	}
+	sharedClaims := map[string]map[string]bool{}
+	for _, p := range w.batch {
+		if t, ok := placed[p.Name]; ok {
+			for _, pc := range p.Spec.ResourceClaims {
+				if sharedClaims[*pc.ResourceClaimName] == nil {
+					sharedClaims[*pc.ResourceClaimName] = map[string]bool{}
+				}
+				sharedClaims[*pc.ResourceClaimName][p.Name+"@"+t] = true
+			}
+		}
+	}
+	nSharedClaims := 0
+	for _, m := range sharedClaims {
+		if len(m) > 1 {
+			nSharedClaims++
+			r.Inc("dra_claims_shared_by_placed_pods")
+		}
+	}
+	// ---- exclusive devices
+	byDev := map[string][]alloc{}
+	for _, a := range allocs {
+		k := a.dev.key()
+		if a.template {
+			k = "T|" + a.nc + "|" + a.it + "|" + k // a template device exists once per (NodeClaim, instance type)
+		}
+		byDev[k] = append(byDev[k], a)
+	}
+	contended := 0
+	for _, k := range sortedKeys(byDev) {
+		as := byDev[k]
+		d := as[0].dev
+		if d.Shared {
+			continue
+		}
+		r.Inc("dra_exclusive_devices_checked")
+		if !as[0].template {
+			if pre, ok := w.preExcl[d.key()]; ok {
+				r.Violate("dra-exclusive-device-already-allocated-in-cluster", fmt.Sprintf("exclusive device %s is allocated in-cluster to claim %s reserved for a live pod, yet the pass allocated it again", d.key(), pre), cs, allocStrings(as))
+				continue
+			}
+		}
+		for i := 0; i < len(as); i++ {
+			for j := i + 1; j < len(as); j++ {
+				if as[i].nc != as[j].nc || as[i].it == as[j].it {
+					key := "dra-exclusive-device-allocated-twice"
+					if as[i].template {
+						key = "dra-exclusive-template-device-allocated-twice"
+					}
+					r.Violate(key, fmt.Sprintf("exclusive device %s serves two allocations that can co-occur", d.key()), cs, []string{as[i].String(), as[j].String()})
+				}
+			}
+		}
+		if len(as) > 1 {
+			contended++
+		}
+	}
+	// ---- multi-allocatable devices: worst co-occurring sum per dimension
+	nShared := 0
+	for _, k := range sortedKeys(byDev) {
+		as := byDev[k]
+		d := as[0].dev
+		if !d.Shared {
+			continue
+		}
+		nShared++
+		r.Inc("dra_shared_devices_checked")
+		for dim, total := range d.Capacity {
+			sum := resource.Quantity{}
+			if !as[0].template {
+				if pre, ok := w.preShared[d.key()][dim]; ok {
+					sum.Add(pre)
+				}
+			}
+			perNC := map[string]map[string]resource.Quantity{} // nodeclaim -> instance type -> sum
+			for _, a := range as {
+				if perNC[a.nc] == nil {
+					perNC[a.nc] = map[string]resource.Quantity{}
+				}
+				cur := perNC[a.nc][a.it]
+				cur.Add(a.consumed[dim])
+				perNC[a.nc][a.it] = cur
+			}
+			for _, byIT := range perNC {
+				worst := resource.Quantity{}
+				for _, v := range byIT {
+					if v.Cmp(worst) > 0 {
+						worst = v
+					}
+				}
+				sum.Add(worst)
+			}
+			if len(as) > 1 {
+				r.Inc("dra_shared_devices_with_several_allocations")
+			}
+			if sum.Cmp(total) == 0 {
+				r.Inc("dra_shared_devices_exactly_full")
+			}
+			if sum.Cmp(total) > 0 {
+				key := "dra-shared-device-capacity-overcommitted"
+				if as[0].template {
+					key = "dra-shared-template-device-capacity-overcommitted"
+				}
+				r.Violate(key, fmt.Sprintf("multi-allocatable device %s: co-occurring allocations (plus in-cluster consumption) consume %s of %s > capacity %s", d.key(), sum.String(), dim, total.String()), cs, allocStrings(as))
+			}
+		}
+	}
+	// ---- counter sets of partitionable pools
+	type poolScope struct{ scope, pool string }
+	byPool := map[poolScope][]alloc{}
+	for _, a := range allocs {
+		if len(a.dev.Consumes) == 0 {
+			continue
+		}
+		sc := poolScope{"", a.dev.Driver + "|" + a.dev.Pool}
+		if a.template {
+			sc.scope = "T|" + a.nc + "|" + a.it
+		}
+		byPool[sc] = append(byPool[sc], a)
+	}
+	nCounters := 0
+	for sc, as := range byPool {
+		var budget map[string]map[string]resource.Quantity
+		if as[0].template {
+			budget = w.tcounters[as[0].it][sc.pool]
+		} else {
+			budget = w.counters[sc.pool]
+		}
+		for set, cnts := range budget {
+			for cname, total := range cnts {
+				nCounters++
+				r.Inc("dra_counters_checked")
+				sum := resource.Quantity{}
+				if !as[0].template {
+					for dk := range w.preExcl {
+						if pd := w.inCluster[dk]; pd != nil && pd.Driver+"|"+pd.Pool == sc.pool {
+							sum.Add(pd.Consumes[set][cname])
+						}
+					}
+				}
+				perNC := map[string]map[string]resource.Quantity{}
+				for _, a := range as {
+					if perNC[a.nc] == nil {
+						perNC[a.nc] = map[string]resource.Quantity{}
+					}
+					cur := perNC[a.nc][a.it]
+					cur.Add(a.dev.Consumes[set][cname])
+					perNC[a.nc][a.it] = cur
+				}
+				for _, byIT := range perNC {
+					worst := resource.Quantity{}
+					for _, v := range byIT {
+						if v.Cmp(worst) > 0 {
+							worst = v
+						}
+					}
+					sum.Add(worst)
+				}
+				if sum.Cmp(total) == 0 {
+					r.Inc("dra_counters_exactly_exhausted")
+				}
+				if sum.Cmp(total) > 0 {
+					key := "dra-shared-counter-overconsumed"
+					if as[0].template {
+						key = "dra-template-shared-counter-overconsumed"
+					}
+					r.Violate(key, fmt.Sprintf("pool %s counter set %s: co-occurring allocations (plus in-cluster consumption) consume %s of counter %s > %s", sc.pool, set, sum.String(), cname, total.String()), cs, allocStrings(as))
+				}
+			}
+		}
+	}
+	if len(allocs) == 0 {
+		return
+	}
+	kinds := map[string]bool{}
+	for _, a := range allocs {
+		k := "excl"
+		if a.dev.Shared {
+			k = "shared"
+		} else if len(a.dev.Consumes) > 0 {
+			k = "part"
+		}
+		if a.template {
+			k = "t-" + k
+		} else {
+			k = "c-" + k
+		}
+		kinds[k] = true
+	}
+	multi := false
+	for _, n := range draPodsOn {
+		if n >= 2 {
+			multi = true
+		}
+	}
+	r.Sig("dra|kinds=%s|claims=%s|multiPodTarget=%v|sharedClaim=%v|prealloc=%v|unscheduled=%v|par=%d", strings.Join(sortedKeys(kinds), "+"), bucket(len(res.DRAClaimAllocationMetadata), 4), multi, nSharedClaims > 0,
+		len(w.preExcl)+len(w.preShared) > 0, len(res.PodErrors) > 0, w.par)
+	if r.WantSample() && idx%5 == 2 {
+		var as []string
+		for _, a := range allocs {
+			as = append(as, a.String())
+		}
+		sort.Strings(as)
+		r.Sample(map[string]any{"case": idx, "part": "dra", "world": w.desc, "result": summarize(res), "allocations": as})
+	}
+}
+
+func allocStrings(as []alloc) []string {
+	var out []string
+	for _, a := range as {
+		out = append(out, a.String())
+	}
+	sort.Strings(out)
+	return out
 }
